@@ -17,7 +17,15 @@ def all_mesh_vars(out):
 
 def gen_request(r, out):
     req = {}
-    kind = r.choice(["groups_false", "groups_list", "mesh_vars", "part_vars", "both_vars", "mesh_vars", "partial_components"])
+    kind = r.choice(["groups_false", "groups_list", "mesh_vars", "part_vars", "both_vars", "mesh_vars", "partial_components", "empty_list"])
+    if kind == "empty_list":
+        # a variable list that came out empty (a computed intersection): nothing of that group is requested
+        which = r.choice(["mesh", "part", "both"]) if out["part"] else "mesh"
+        if which in ("mesh", "both"):
+            req["mesh_vars"] = []
+        if which in ("part", "both"):
+            req["part_vars"] = []
+        return req, kind
     if kind == "groups_false":
         for g in ("mesh", "part", "sink"):
             if r.random() < 0.4:
